@@ -349,6 +349,20 @@ def fl_tx(rng):
     return tx_line(cfg_line(pC, FEE10, flags), ixs)
 
 
+def fl_liq_inside(rng):
+    """'liquidation ... impossible while the flag is set': the account borrows itself under water INSIDE its own flash-loan
+    bracket, another account liquidates it there, it repays and ends healthy - every instruction but the liquidation is
+    legal, so the transaction commits iff the liquidation of a flagged account is let through"""
+    pC = rng.choice([P10, P20])
+    X = rng.choice([900, 1000, 1100, 1500, 2000, 3000, 5000]) * U
+    liq = rng.choice([(2, 12), (2, 12), (1, 11), (4, 14)])
+    Y = X - rng.choice([30, 50, 100, 300]) * U
+    pre = [rng.choice(["CB", "FG 4 999 24"])] if rng.random() < 0.3 else []
+    k = len(pre)
+    ixs = pre + ["SF 3 13 %d" % (k + 4), "BR 3 13 32 %d" % X, "LQ %d %d 3" % liq, "RP 3 13 32 %d" % Y, "EF 3 13"]
+    return tx_line(cfg_line(pC, FEE10, [0, 0, 0, 0]), ixs)
+
+
 def sim_enumerated(kind):
     """small exhaustive family: every transaction of length <= 3 over a 6-symbol alphabet"""
     if kind == "liq":
